@@ -247,7 +247,7 @@ class Job:
         r = checked(s, timeout)
         dt = time.time() - t0
         self.solver_time += dt
-        res = {"id": oid, "time": round(dt, 4), "nontrivial": not trivial, "job": self.name}
+        res = {"id": oid, "time": round(dt, 4), "nontrivial": not trivial, "job": self.name, "solver": True}
         try:
             text = s.to_smt2()
         except Exception:
@@ -324,7 +324,7 @@ class Job:
     def refute_concretely(self, oid, replay, inputs, known=None):
         """a violation established directly by running the real code (e.g. non-termination witness)"""
         out = run_replay(replay, inputs)
-        res = {"id": oid, "time": 0.0, "nontrivial": True, "job": self.name, "hash": _hash(oid + repr(inputs))}
+        res = {"id": oid, "time": 0.0, "nontrivial": True, "job": self.name, "hash": _hash(oid + repr(inputs)), "kind": "concrete_point"}
         if out["ok"]:
             res["status"] = "discharged"
         else:
